@@ -266,6 +266,7 @@ class P(Prop):
         (M, "TV.C13.wkt_roundtrip", "parseWkt(track.toWKT()) returns the same vertices in the same order for every non-empty track in ENU, Geo or ECEF coordinates whose ordinates are ANY finite floats: negative zero, integer-valued, 17 digits, below 1e-4 / from 1e16 where str(float) prints the exponent notation"),
         (M, "TV.C13.wkt_vertex_value", "each vertex parsed back has exactly the planimetric coordinates written (mantissa/10^decimals = +-mag/10^d, cross-multiplied) and third coordinate 0"),
         (M, "TV.C13.wkt_upper", "what parseWkt works on: wkt.upper() of the exported text is the same text with the exponent marker E"),
+        (M, "TV.C13.polygon_parse", "a one-ring POLYGON((x y,...)) text with ordinates as str(float) prints them is parsed by parseWkt as the vertices of its ring, in order"),
         (M, "TV.C13.wkt_file_roundtrip", "tracks exported with toWKT and stored one per line (uid, tid, quoted WKT text; optional header line and blank lines) are read back by readFromWkt(path, 2, 0, 1, sep, h, doublequote) as the same tracks in order: ids and every vertex"),
         (M, "TV.C13.repr_value", "float(str(x)) for x = +-mag/10^d of any magnitude: the text (positional, or exponent notation with e / E) is accepted by float() and the decimal read back has the value written"),
         (M, "TV.C13.float_exponent_form", "float() of any literal [-]d[.ddd](e|E)(+|-)xx is the decimal digits/10^(n-1) * 10^xx"),
@@ -292,7 +293,8 @@ class P(Prop):
                        "read_all: proved for reader header counts 0, 1, 2; hr = 3 (the names line consumed by the header loop, with its newline) is covered by "
                        "correspondence only; float() of digit-group underscores (1_000) and of exponents beyond the double range (1e400 -> inf) is outside the "
                        "model (the generators avoid them)",
-                       "TrackReader.parseWkt on POLYGON / MULTIPOLYGON texts (never written by tracklib) is modelled and compared on hand-made texts, without a theorem",
+                       "TrackReader.parseWkt on POLYGON texts (never written by tracklib): the canonical one-ring layout has the theorem polygon_parse; polygons with "
+                       "holes, stray blanks, z values and the MULTIPOLYGON branch (AttributeError) are modelled and compared on hand-made texts only",
                        "readFromCsv's no_data_value and com arguments keep their defaults (-999999, '#'); `com` is ignored by the library anyway (TrackFormat reads the key 'cmt')",
                        "formats given by NAME (writeToFile(track, path, 'RTKLIB'), readFromFile(path, 'RTKLIB'): resources/track_file_format) are outside the model: their "
                        "separators have several characters (`bb`) or their timestamps are seconds since a reference epoch (date_ini)",
@@ -316,7 +318,7 @@ class P(Prop):
             "writer h in {1,2,3} x reader header 0..5 (correspondence); random tracks of 1-6 fixes with "
             "negative / 1e6-large / many-decimal coordinates on and off the 1 mm / 1e-8 deg lattice, timestamps at midnight, month, year ends and leap days; "
             "time formats; feature columns (0-3, int / float / str / nan values, names incl. `k&`, `time`, `ele`) read back with read_all for writer h 0-3 x reader header 0-4; "
-            "the front end writeToCsv on a track and on a collection (one file per track, read back file by file AND through readFromCsv(<directory>), compared as a "
+            "a tenth of the CSV / GPX / network files written onto an existing, longer file of the same kind (the writers must replace it); the front end writeToCsv on a track and on a collection (one file per track, read back file by file AND through readFromCsv(<directory>), compared as a "
             "multiset of tracks: the listing order is the file system's); writeToFile(track, path) with default arguments read back by readFromCsv(path, 0, 1); "
             "collections of 1-4 tracks written to ONE gpx file; GPX write/read, 40 % with af=True (feature names incl. time, ele, trk, trkpt); networks of 1-5 edges, three orientations, 2-5 vertices, ids that are numeric strings, user weights, half of them NOT "
             "topologically exact (edges sharing a node id end up to a few units beside the node's registered position; self loops), a quarter of them with vertices "
@@ -342,6 +344,18 @@ class P(Prop):
         self.Network, self.Node, self.Edge = Network, Node, Edge
         self.TW, self.TR, self.NW, self.NR, self.NF = TrackWriter, TrackReader, NetworkWriter, NetworkReader, NetworkFormat
         self.tmp = tempfile.gettempdir()
+
+    STALE = {"csv": "7.5;7.5;7.5;7.5\n7.5,7.5,7.5,7.5\n7.5 7.5 7.5 7.5\n7.5|7.5|7.5|7.5\n7.5\t7.5\t7.5\t7.5\n",
+             "net": "zz,a,b,0,\"LINESTRING(0.0 0.0,1.0 1.0)\"\nzz;a;b;0;\"LINESTRING(0.0 0.0,1.0 1.0)\"\n",
+             "gpx": "    <trk>\n        <trkseg>\n            <trkpt lat=\"1.00000000\" lon=\"2.00000000\">\n                <ele>3.00000000</ele>\n"
+                    "                <time>2001-02-03T04:05:06Z</time>\n            </trkpt>\n        </trkseg>\n    </trk>\n"}
+
+    def put_stale(self, case, path, kind):
+        """the target of the writer already exists and holds an older, longer file of the same kind (`stale` cases): a
+        writer that appended to it or overwrote only its beginning would leave observations that were never written"""
+        if case.get("stale"):
+            with open(path, "w", newline="") as fh:
+                fh.write(self.STALE[kind] * 60)
 
     def tmpfile(self, ext):
         """one scratch file per process, removed after every case (no directory is left behind by pool workers)"""
@@ -467,6 +481,8 @@ class P(Prop):
             case["afs"] = [[self.rand_af(rng, rich) for _ in range(naf)] for _ in rows]
         if read_all:
             case["read_all"] = True
+        if rng.random() < 0.1:
+            case["stale"] = True        # the file already exists
         return case
 
     def rand_ident(self, rng):
@@ -523,8 +539,11 @@ class P(Prop):
                 e["w"] = rng.choice([0, 1, 2.5, 1000, -1])        # a weight set by the user (the writer does not write it)
             edges.append(e)
         h = rng.choice([0, 1, 1]) if h is None else h
-        return {"kind": "net", "srid": srid, "q": q, "sep": sep or rng.choice([",", ";", " ", "\t", "|"]), "h": h,
-                "hdrR": h if hdrR is None else hdrR, "posdir": 3, "edges": edges}
+        c = {"kind": "net", "srid": srid, "q": q, "sep": sep or rng.choice([",", ";", " ", "\t", "|"]), "h": h,
+             "hdrR": h if hdrR is None else hdrR, "posdir": 3, "edges": edges}
+        if rng.random() < 0.1:
+            c["stale"] = True
+        return c
 
     # ---- sessions: several operations sharing the global ObsTime formats
     def session_op(self, rng, kind, fmt):
@@ -781,6 +800,8 @@ class P(Prop):
                     r[2] = 0 if q is not None else 0.0
             c = {"kind": "gpx", "srid": srid, "q": q, "rows": rows, "rfmt": rng.choice([ISO_FMT, ISO_FMT, ISO_FMT + "Z"]),
                  "tid": rng.choice([0, 7, "trace", "t-1"])}
+            if rng.random() < 0.1:
+                c["stale"] = True
             if rng.random() < 0.4:       # writeToGpx(af=True): an <extensions> block per point
                 naf = rng.choice([0, 1, 2, 3])
                 c["af_names"] = rng.sample(AF_NAMES[:8] + ["time", "ele", "trk", "trkpt", "E"], naf)
@@ -832,7 +853,10 @@ class P(Prop):
                 for r in rows:
                     r[2] = 0 if q is not None else 0.0
             tracks.append({"tid": tid, "rows": rows})
-        return {"kind": "gpxcoll", "srid": srid, "q": q, "tracks": tracks, "rfmt": rng.choice([ISO_FMT, ISO_FMT, ISO_FMT + "Z"])}
+        c = {"kind": "gpxcoll", "srid": srid, "q": q, "tracks": tracks, "rfmt": rng.choice([ISO_FMT, ISO_FMT, ISO_FMT + "Z"])}
+        if rng.random() < 0.1:
+            c["stale"] = True
+        return c
 
     def wkt_case(self, rng, n=None):
         """a track exported by toWKT and parsed back: vertices on the 1 mm / 1e-8 degree lattice (its small values, 1e-08 ...,
@@ -910,6 +934,8 @@ class P(Prop):
             t["extensions"] = "af_names" in case
         if k == "time":
             t["fmt"] = case["pfmt"]
+        if k in ("csv", "gpx", "gpxcoll", "net"):
+            t["file_exists"] = bool(case.get("stale"))
         if k == "wkt":
             t["srid"] = case["srid"]
             t["floats"] = case["q"] is None
@@ -1197,6 +1223,7 @@ class P(Prop):
             coll.addTrack(trk)
         path = self.tmpfile("gpx")
         try:
+            self.put_stale(case, path, "gpx")
             self.lib("TrackWriter.writeToGpx(collection)", self.TW.writeToGpx, coll, path)
             with open(path, newline="") as fh:
                 text = fh.read()
@@ -1254,6 +1281,7 @@ class P(Prop):
             return self.impl_csv_collection(case)
         path = self.tmpfile("csv")
         try:
+            self.put_stale(case, path, "csv")
             try:
                 if case.get("front") == "defaults":
                     self.lib("TrackWriter.writeToFile(track, path)", self.TW.writeToFile, trk, path)
@@ -1306,6 +1334,7 @@ class P(Prop):
         d = tempfile.mkdtemp(prefix="c13c_")
         try:
             tf = TrackFormat({"ext": "CSV", "id_E": ids["E"], "id_N": ids["N"], "id_U": ids["U"], "id_T": ids["T"], "separator": case["sep"], "header": case["h"]})
+            self.put_stale(case, os.path.join(d, "track_output_0.csv"), "csv")
             try:
                 self.lib("TrackWriter.writeToCsv(collection)", self.TW.writeToCsv, coll, d, tf)
             except Exception as e:
@@ -1348,6 +1377,7 @@ class P(Prop):
                 trk.setObsAnalyticalFeature(nm, i, af_py(case["afs"][i][j]))
         path = self.tmpfile("gpx")
         try:
+            self.put_stale(case, path, "gpx")
             if "af_names" in case:
                 self.lib("TrackWriter.writeToGpx(af=True)", self.TW.writeToGpx, trk, path, af=True)
             else:
@@ -1386,6 +1416,7 @@ class P(Prop):
                         self.Node(e["tgt"], C(cval(g[-1][0], q), cval(g[-1][1], q), 0.0)))
         path = self.tmpfile("csv")
         try:
+            self.put_stale(case, path, "net")
             ret = self.lib("NetworkWriter.writeToCsv", self.NW.writeToCsv, net, path, separator=case["sep"], h=case["h"])
             with open(path, newline="") as fh:
                 text = fh.read()
@@ -1988,6 +2019,8 @@ class P(Prop):
                 yield c
         if k in ("csv", "gpx") and case.get("af_names"):
             c = dict(case); c.pop("af_names"); c.pop("afs"); yield c
+        if k in ("csv", "gpx", "gpxcoll", "net") and case.get("stale"):
+            c = dict(case); c.pop("stale"); yield c
         if k == "csv":
             for key in ("nread", "mid_print", "more"):
                 if key in case:
